@@ -4,6 +4,14 @@ set -e
 cd "$(dirname "$0")"
 export GOFLAGS=-mod=mod GOPROXY=off
 python3 harness/genmod.py /repo
-( cd harness && go build -tags verif ./... ) || exit 1
+cd harness
+go build -tags verif ./lib/...
+for d in cmd/*; do
+  # cmd/keyorder reaches unexported jsondb comparers through a `go build -overlay` export file that its check
+  # (checks/C29.py / C30.py) generates; it cannot be built without it
+  [ "$d" = cmd/keyorder ] && continue
+  go build -tags verif -o /dev/null "./$d" || exit 1
+done
+cd ..
 java -cp /opt/veriftools/tla/tla2tools.jar tlc2.TLC -h >/dev/null 2>&1 || true
 echo setup ok
